@@ -40,8 +40,9 @@ Definition clear_bits (x m : N) : N := N.ldiff x m.
 
 (* ---------------------------------------------------------------- the host (oracle record) *)
 Record host := mk_host {
-  (* fallocate64(fd, mode, off, len) on a file of the given size: (errno, new size) *)
-  ho_falloc : N -> N -> N -> N -> N * N;
+  (* fallocate64(fd, mode, off, len) on an fd open for writing or not, file of the given size:
+     (errno, new size) *)
+  ho_falloc : bool -> N -> N -> N -> N -> N * N;
   (* largest file size the host file system accepts (s_maxbytes) *)
   ho_maxbytes : N
 }.
@@ -127,7 +128,8 @@ Definition step (H : host) (C : cfg) (s : state) (r : req) : N * state :=
       let chk := if c_seal C then seal_size_check true (sizes s file) off len 0 else 0 in
       if negb (chk =? 0) then (chk, s1)
       else if len =? 0 then (0, s1)                     (* nothing to copy: no pwrite is issued *)
-      else if hd_acc h =? 0 then (EBADF, s1)            (* fd not open for writing *)
+      else if hd_acc h =? 0 then                        (* fd not open for writing *)
+        (if I64_MAX <? off then (EINVAL, s1) else (EBADF, s1))
       else let '(e, sz) := host_pwrite H (sizes s file) (hd_append h) off len in
            (e, set_size s1 file sz)
     end
@@ -137,8 +139,7 @@ Definition step (H : host) (C : cfg) (s : state) (r : req) : N * state :=
     | Some h =>
       let chk := if c_seal C then seal_size_check false (sizes s file) off len mode else 0 in
       if negb (chk =? 0) then (chk, s)
-      else if hd_acc h =? 0 then (EBADF, s)
-      else let '(e, sz) := ho_falloc H (sizes s file) mode off len in
+      else let '(e, sz) := ho_falloc H (negb (hd_acc h =? 0)) (sizes s file) mode off len in
            (e, set_size s file sz)
     end
   | Setattr file with_size newsize =>
@@ -163,30 +164,33 @@ Fixpoint run (H : host) (C : cfg) (s : state) (rs : list req) : list N * state :
 
 (* ---------------------------------------------------------------- a concrete linux/ext4 host for the tie *)
 Definition BLK : N := 4096.
-Definition linux_falloc (maxbytes : N) (size mode off len : N) : N * N :=
+(* vfs_fallocate (linux 6.x) followed by ext4_fallocate *)
+Definition linux_falloc (maxbytes : N) (writable : bool) (size mode off len : N) : N * N :=
   if (I64_MAX <? off) || (I64_MAX <? len) || (len =? 0) then (EINVAL, size)
+  else if negb (N.land mode (N.lnot 127 64) =? 0) then (EOPNOTSUPP, size)
   else
     let keep := has mode FL_KEEP_SIZE in
     let op := clear_bits mode FL_KEEP_SIZE in
-    if negb (N.land mode (N.lnot 127 64) =? 0) then (EOPNOTSUPP, size)
-    else if op =? 0 then
-      (if maxbytes <? off + len then (EFBIG, size) else (0, if keep then size else N.max size (off + len)))
-    else if op =? FL_PUNCH_HOLE then
-      (if keep then (if maxbytes <? off + len then (EFBIG, size) else (0, size)) else (EOPNOTSUPP, size))
-    else if op =? FL_ZERO_RANGE then
-      (if maxbytes <? off + len then (EFBIG, size) else (0, if keep then size else N.max size (off + len)))
+    (* switch (mode & FALLOC_FL_MODE_MASK) *)
+    if negb ((op =? 0) || (op =? FL_UNSHARE_RANGE) || (op =? FL_ZERO_RANGE) || (op =? FL_PUNCH_HOLE)
+             || (op =? FL_COLLAPSE_RANGE) || (op =? FL_INSERT_RANGE)) then (EOPNOTSUPP, size)
+    else if (op =? FL_PUNCH_HOLE) && negb keep then (EOPNOTSUPP, size)
+    else if ((op =? FL_COLLAPSE_RANGE) || (op =? FL_INSERT_RANGE)) && keep then (EOPNOTSUPP, size)
+    else if negb writable then (EBADF, size)
+    else if maxbytes <? off + len then (EFBIG, size)
+    else if op =? FL_UNSHARE_RANGE then (EOPNOTSUPP, size)            (* ext4 *)
+    else if op =? 0 then (0, if keep then size else N.max size (off + len))
+    else if op =? FL_PUNCH_HOLE then (0, size)
+    else if op =? FL_ZERO_RANGE then (0, if keep then size else N.max size (off + len))
     else if op =? FL_COLLAPSE_RANGE then
-      (if keep then (EINVAL, size)
-       else if negb ((off mod BLK =? 0) && (len mod BLK =? 0)) then (EINVAL, size)
+      (if negb ((off mod BLK =? 0) && (len mod BLK =? 0)) then (EINVAL, size)
        else if size <=? off + len then (EINVAL, size)
        else (0, size - len))
-    else if op =? FL_INSERT_RANGE then
-      (if keep then (EINVAL, size)
-       else if negb ((off mod BLK =? 0) && (len mod BLK =? 0)) then (EINVAL, size)
+    else
+      (if negb ((off mod BLK =? 0) && (len mod BLK =? 0)) then (EINVAL, size)
        else if size <=? off then (EINVAL, size)
        else if maxbytes <? size + len then (EFBIG, size)
-       else (0, size + len))
-    else (EOPNOTSUPP, size).
+       else (0, size + len)).
 
 Definition ext4_maxbytes : N := 17592186040320.       (* 2^44 - 4096: ext4, 4 KiB blocks, extents *)
 Definition tie_host : host := mk_host (linux_falloc ext4_maxbytes) ext4_maxbytes.
